@@ -396,7 +396,8 @@ class Param():
             # request for that parameter may consume it
             if pk.channel == MISC_CHANNEL and pk.data[0] == MISC_GET_DEFAULT_VALUE and \
                     pk.data[1:3] == struct.pack('<H', element.ident):
-                if pk.data[3] == errno.ENOENT:
+                # An error reply is 4 bytes long; a longer reply is a value, also when its first byte is 2
+                if len(pk.data) == 4 and pk.data[3] == errno.ENOENT:
                     callback(complete_name, None)
                     self.cf.remove_port_callback(CRTPPort.PARAM, new_packet_cb)
                     return
